@@ -46,6 +46,14 @@ def readLebGoLoop : Bytes → UInt64 → Nat → Option (UInt64 × Nat)
 /-- ReadLeb128: (value, bytes read) or ErrFailedToReadLEB128 -/
 def readLebGo (inp : Bytes) : Option (UInt64 × Nat) := readLebGoLoop inp 0 0
 
+/-- ReadLeb128 agrees with the specification on everything WriteToLeb128 produces for values that
+    fit eight LEB128 bytes (beyond that the 64-bit accumulator of ReadLeb128 drops bytes).
+    Proved as `Rtp.Model.readLebGo_writeLeb` in Rtp/Proofs/Leb128Go.lean; theorems elsewhere that
+    need it take `(h : LebGoSpec)` as a hypothesis and are instantiated with that lemma. -/
+def LebGoSpec : Prop :=
+  ∀ (n : Nat) (rest : Bytes), n < 2 ^ 56 →
+    readLebGo (writeLeb n ++ rest) = some (n.toUInt64, (writeLeb n).length)
+
 /-- number of bytes WriteToLeb128 produces (av1_packet.go leb128Size is a separate function) -/
 def lebLen (n : Nat) : Nat := (writeLeb n).length
 
